@@ -793,3 +793,162 @@ def find_slot_paths(facts, adt, type_rx, depth=0):
             for sub in find_slot_paths(facts, x["ty"], type_rx, depth + 1):
                 out.append((x["name"],) + sub)
     return out
+
+
+def lift_site(facts, g, bb):
+    """A read inside a private helper is judged in the function the helper serves: while the function holding the site is a private,
+    non-trait function whose callers all sit in one other function, move up; then find the site in that function's body with the helpers of
+    its file spliced in.  -> (function to analyse, block)"""
+    import inline
+    top = g
+    seen = {g.id}
+    while top.rec.get("impl_trait") is None and not top.rec.get("vis_pub") and "{closure" not in top.id:
+        callers = {h.id for h, b2, t2 in facts.callers_of(top.id)}
+        if len(callers) != 1:
+            break
+        nxt = facts.fns[next(iter(callers))]
+        if nxt.id in seen or nxt.file != top.file:
+            break
+        seen.add(nxt.id)
+        top = nxt
+    if top.id == g.id:
+        return g, bb
+    R = inline.inlined(facts, top.id, stop=lambda d: facts.fns[d].rec.get("local") and (facts.fns[d].file != top.file or d not in seen))
+    for b in range(R.n):
+        blk = R.blocks[b]
+        if blk.get("src") == g.id and blk.get("obb") == bb and not blk.get("synthetic"):
+            return R, b
+    return g, bb
+
+
+
+
+def abstractly_visited(facts):
+    """(function def path, block) pairs at which some abstract path of the public entry points PANICS (the diverging call itself, or a call site
+    whose spliced-in callee diverges): of the Request and of the turn-taking
+    reader/writer, started from the states the typestate rules (C06) and the chain rules (C01/C09) establish.  A panic-capable construct of
+    those modules that is NOT in this set cannot be reached by any use of the public API: the check that would fail is decided by the
+    state the object is in.  -> (visited set, set of functions fully covered)"""
+    if hasattr(facts, "_abs_visited"):
+        return facts._abs_visited
+    import request_rules as RR, turn_rules as T, absint, symex, inline
+    import queue_rules as Q
+    visited, covered, cut_fns = set(), set(), set()
+    def note(f, paths):
+        had_cut = any(p.end[0] == "cut" for p in paths)
+        for dep, d in f.inlined:
+            (cut_fns if had_cut else covered).add(d)
+        for p in paths:
+            if p.end[0] not in ("diverge", "resume", "terminate"):
+                continue
+            # where the path blew up: the block itself and every call site (of the functions spliced in) it is nested in
+            blk = f.blocks[p.blocks[-1]]
+            visited.add((blk.get("src") or f.id, blk.get("obb", p.blocks[-1])))
+            for sd, so in blk.get("sites") or ():
+                visited.add((sd, so))
+    RM = RR.rmodel(facts)
+    import engine
+    nd_ok, nd_path = notify_slot_dead(engine.Ctx("x", "quick", facts, 0))
+    def pre(st, base):
+        if nd_ok and nd_path:
+            st.write_key(RM.key(base, nd_path), ("none",))
+    entry = [m for m in RM.methods.values() if m.rec.get("vis_pub")]
+    for g in entry:
+        base = RM.self_base(g)
+        f = RM.fn(g)
+        for w, r in (("some", "some"),):
+            st = symex.Sym(f)
+            st.write_key(RM.key(base, RM.wslot), ("some", RR.WRITER))
+            st.write_key(RM.key(base, RM.rslot), ("some", RR.READER))
+            pre(st, base)
+            note(f, absint.explore(f, 0, st, max_paths=6000))
+    f = RM.fn(RM.drop)
+    for w, r in (("some", "some"), ("none", "some"), ("none", "none")):
+        st = symex.Sym(f)
+        st.write_key(RM.key((1, "*"), RM.wslot), ("some", RR.WRITER) if w == "some" else ("none",))
+        st.write_key(RM.key((1, "*"), RM.rslot), ("some", RR.READER) if r == "some" else ("none",))
+        pre(st, (1, "*"))
+        note(f, absint.explore(f, 0, st, max_paths=6000))
+    for chain, trait, names in ((T.writer_chain(facts), T_WRITE, ("write", "flush")), (T.reader_chain(facts), T_READ, ("read",))):
+        if chain.problems or len(chain.items) < 3:
+            continue
+        shapes = list(chain.items[:2])
+        adt = chain.i_adt
+        ms = [method(facts, trait, adt, n) for n in names] + [method(facts, T_DROP, adt, "drop")]
+        # shapes after a first use
+        for m in ms[:-1]:
+            for it in list(chain.items[:2]):
+                f, ps = chain.run(m.id, it)
+                for p in ps:
+                    if p.end[0] == "return":
+                        shapes.append(absint.deep(p.state, p.state.read_key((1, "*"))))
+        seen = set()
+        for m in ms:
+            f = chain.inl(m.id)
+            for it in shapes:
+                if repr((m.id, it)) in seen:
+                    continue
+                seen.add(repr((m.id, it)))
+                st = symex.Sym(f)
+                st.counter = 1000
+                st.write_key((1, "*"), it)
+                note(f, absint.explore(f, 0, st))
+        for m in (chain.ctor, chain.next):
+            pass
+    facts._abs_visited = (visited, covered - cut_fns)
+    return facts._abs_visited
+
+
+def owner_of_path(facts, adt, path):
+    """(owning adt, field) of the last segment of a field path through nested local structs"""
+    owner = adt
+    for seg in path[:-1]:
+        nxt = [x["ty"] for x in facts.adt(owner)["variants"][0]["fields"] if x["name"] == seg]
+        owner = nxt[0]
+    return owner, path[-1]
+
+
+def notify_slot_dead(ctx):
+    """The Request's `Option<Sender<()>>` (HTTPS-only completion notice) is never Some in this configuration: it is None at construction and
+    set only by functions whose every call sits on the HTTPS-only branch (dead: Stream::secure() is constantly false).  -> (ok, slot path or None)"""
+    facts = ctx.facts
+    if hasattr(facts, "_notify_dead"):
+        return facts._notify_dead
+    paths = find_slot_paths(facts, REQ, r"^std::option::Option<std::sync::mpsc::Sender<\(\)>>$")
+    if len(paths) != 1:
+        facts._notify_dead = (len(paths) == 0, None)
+        return facts._notify_dead
+    owner, fld = owner_of_path(facts, REQ, paths[0])
+    ok = tls_const_false(ctx)
+    setters = set()
+    for f, bb, kind, x in facts.field_writes(owner, fld):
+        if kind == "construct":
+            r = x["rhs"]
+            o = f.origin(r["ops"][r["fields"].index(fld)])
+            if not (o[0] == "agg" and o[4] == "None"):
+                # a constructor that takes the value as a parameter: then its callers must pass None
+                ok = ok and False
+        elif kind in ("assign", "calldest"):
+            setters.add(f.id)
+    work = list(setters)
+    seen = set()
+    while work:
+        sid = work.pop()
+        if sid in seen:
+            continue
+        seen.add(sid)
+        for g, bb, t in facts.callers_of(sid):
+            if g.rec.get("impl_self_adt") in (REQ, owner) and not g.rec.get("vis_pub") or (g.rec.get("impl_self_adt") == owner and owner != REQ):
+                work.append(g.id)        # a private forwarding helper: look at its callers
+                continue
+            import server_rules as S
+            try:
+                tk = S.smodel(facts).tk
+            except CheckerError:
+                ok = False
+                continue
+            bs = [b2 for b2 in range(tk.n) if tk.src_of(b2) == g.id and tk.blocks[b2].get("obb") == bb and not tk.blocks[b2].get("synthetic")]
+            if not bs or not all(tls_branch_dead(ctx, tk, b2) for b2 in bs):
+                ok = False
+    facts._notify_dead = (ok, paths[0])
+    return facts._notify_dead
